@@ -735,10 +735,16 @@ qb_vsnprintf_deserialize(char *string, size_t str_len, const char *buf)
 		type_longlong = QB_FALSE;
 		p = strchrnul((const char *)format, '%');
 		if (*p == '\0') {
+			string[location] = '\0';
 			return my_strlcat(string, format, str_len) + 1;
 		}
-		/* copy from current to the next % */
+		/* copy from current to the next %, as far as there is room */
 		len = p - format;
+		if (location + len >= str_len) {
+			memcpy(&string[location], format, str_len - 1 - location);
+			string[str_len - 1] = '\0';
+			return str_len;
+		}
 		memcpy(&string[location], format, len);
 		location += len;
 		format = p;
@@ -932,6 +938,10 @@ reprocess:
 			format++;
 			break;
 
+		}
+		if (location >= str_len - 1) {
+			string[str_len - 1] = '\0';
+			return str_len;
 		}
 	}
 	return location;
